@@ -399,23 +399,23 @@ Fixpoint sorted_ids (l : list nat) : Prop :=
   | j :: r => Forall (fun j' => vpos (nth j nv dummy) <= vpos (nth j' nv dummy)) r /\ sorted_ids r
   end.
 
-Lemma non_overlapping_props : forall (vs : list ivar) seen skip,
+Lemma non_overlapping_props (sym : bool) : forall (vs : list ivar) seen skip,
   (forall j v, In (j, v) vs -> nth_error nv j = Some v) -> sorted_pos vs ->
-  (forall j, In j (non_overlapping vs seen skip) -> exists v, In (j, v) vs) /\
-  sorted_ids (non_overlapping vs seen skip).
+  (forall j, In j (non_overlapping sym vs seen skip) -> exists v, In (j, v) vs) /\
+  sorted_ids (non_overlapping sym vs seen skip).
 Proof.
 induction vs as [|[j v] rest IH]; intros seen skip Hnth Hs.
 - cbn. split; [intros ? []|exact I].
 - assert (Hnth' : forall j v, In (j, v) rest -> nth_error nv j = Some v) by (intros; apply Hnth; now right).
   destruct Hs as [Hall Hs].
   assert (Hdrop : forall seen' skip',
-            (forall j0, In j0 (non_overlapping rest seen' skip') -> exists v0, In (j0, v0) ((j, v) :: rest)) /\
-            sorted_ids (non_overlapping rest seen' skip')).
+            (forall j0, In j0 (non_overlapping sym rest seen' skip') -> exists v0, In (j0, v0) ((j, v) :: rest)) /\
+            sorted_ids (non_overlapping sym rest seen' skip')).
   { intros seen' skip'. destruct (IH seen' skip' Hnth' Hs) as [H1 H2]. split; [|exact H2].
     intros j0 Hj0. destruct (H1 j0 Hj0) as (v0 & Hv0). exists v0. now right. }
   assert (Hkeep : forall seen' skip',
-            (forall j0, In j0 (j :: non_overlapping rest seen' skip') -> exists v0, In (j0, v0) ((j, v) :: rest)) /\
-            sorted_ids (j :: non_overlapping rest seen' skip')).
+            (forall j0, In j0 (j :: non_overlapping sym rest seen' skip') -> exists v0, In (j0, v0) ((j, v) :: rest)) /\
+            sorted_ids (j :: non_overlapping sym rest seen' skip')).
   { intros seen' skip'. destruct (IH seen' skip' Hnth' Hs) as [H1 H2]. split.
     - intros j0 [<-|Hj0]; [exists v; now left|]. destruct (H1 j0 Hj0) as (v0 & Hv0). exists v0. now right.
     - cbn [sorted_ids]. split; [|exact H2]. rewrite Forall_forall. intros j' Hj'.
@@ -425,6 +425,7 @@ induction vs as [|[j v] rest IH]; intros seen skip Hnth Hs.
   cbn [non_overlapping].
   destruct (match skip with Some d => vpos v <? d | None => false end); [apply Hdrop|].
   destruct (existsb (Nat.eqb (vpos v)) seen); [apply Hdrop|].
+  destruct (sym && is_symbolic v); [apply Hdrop|].
   destruct (length (valt v) <? length (vref v)); [|apply Hkeep].
   destruct rest as [|[j1 v1] rest1] eqn:Er.
   + split; [intros j0 [<-|[]]; exists v; now left|]. cbn. split; [constructor|exact I].
@@ -458,11 +459,11 @@ Theorem detect_noref_snv :
 Proof.
 intros R variants start cig query quals j a q v Hs Hin Hn Hsnv.
 unfold detect_noref in Hin. set (nv := map normalized variants) in *.
-set (valid := non_overlapping (index_from 0 nv) [] None) in *.
+set (valid := non_overlapping (r_sym_noref R) (index_from 0 nv) [] None) in *.
 set (vp := map (fun j => build_var_progress (nth j nv (mkVar 0 [] [])) j) valid) in *.
 assert (Hidx : forall j v, In (j, v) (index_from 0 nv) -> nth_error nv j = Some v).
 { intros j0 v0 H0. destruct (index_from_spec nv 0 j0 v0 H0) as [_ H1]. now rewrite Nat.sub_0_r in H1. }
-destruct (non_overlapping_props nv (index_from 0 nv) [] None Hidx Hs) as [Hval Hsorted]. fold valid in Hval, Hsorted.
+destruct (non_overlapping_props nv (r_sym_noref R) (index_from 0 nv) [] None Hidx Hs) as [Hval Hsorted]. fold valid in Hval, Hsorted.
 assert (Hf : Forall (fresh_entry nv) vp).
 { unfold vp. rewrite Forall_map, Forall_forall. intros j0 Hj0. destruct (Hval j0 Hj0) as (v0 & Hv0).
   pose proof (Hidx _ _ Hv0) as Hn0.
